@@ -2,6 +2,8 @@
 package c16
 
 import (
+	"time"
+	"syscall"
 	"bufio"
 	"bytes"
 	"encoding/json"
@@ -192,9 +194,37 @@ func runInFreshWorker(jobs []job) ([]result, error) {
 		input.Write(append(b, '\n'))
 	}
 	cmd.Stdin = &input
-	var stderr bytes.Buffer
+	var stderr, stdout bytes.Buffer
 	cmd.Stderr = &stderr
-	out, err := cmd.Output()
+	cmd.Stdout = &stdout
+	// The programs of a sequence take milliseconds. A worker that has not ended after 30 s is
+	// asked for its goroutine dump (SIGQUIT): if that shows the executing goroutine BLOCKED -
+	// waiting for a lock, a channel, a condition - while no other goroutine runs, the
+	// execution can never end (errBlocked); a worker that is merely slow is an
+	// inconclusive run (exit 2), never a violation.
+	err := cmd.Start()
+	if err == nil {
+		done := make(chan error, 1)
+		go func() { done <- cmd.Wait() }()
+		select {
+		case err = <-done:
+		case <-time.After(30 * time.Second):
+			cmd.Process.Signal(syscall.SIGQUIT)
+			select {
+			case <-done:
+			case <-time.After(5 * time.Second):
+				cmd.Process.Kill()
+				<-done
+			}
+			dump := stderr.String()
+			if blockedDump(dump) {
+				return nil, &errBlocked{dump: tailStr(dump, 6000)}
+			}
+			fmt.Println("INCONCLUSIVE: a worker process did not end within 30 s (no blocked execution in its goroutine dump)")
+			h.ExitInconclusive()
+		}
+	}
+	out := stdout.Bytes()
 	var results []result
 	for _, ln := range bytes.Split(out, []byte("\n")) {
 		if len(ln) == 0 {
@@ -209,6 +239,34 @@ func runInFreshWorker(jobs []job) ([]result, error) {
 		return results, fmt.Errorf("worker answered %d of %d programs (%v): %s", len(results), len(jobs), err, tailStr(stderr.String(), 1500))
 	}
 	return results, nil
+}
+
+// errBlocked - the worker's goroutine dump shows the execution blocked for ever
+type errBlocked struct{ dump string }
+
+func (e *errBlocked) Error() string { return "the execution is blocked for ever:\n" + e.dump }
+
+// blockedDump - the goroutine executing the job (runJob in its stack) waits for a lock, a
+// semaphore, a channel or a condition, and no goroutine is running or runnable
+func blockedDump(dump string) bool {
+	blocked := false
+	for _, g := range strings.Split(dump, "\n\ngoroutine ") {
+		head := strings.SplitN(g, "\n", 2)[0]
+		if strings.Contains(head, "[running") || strings.Contains(head, "[runnable") {
+			if strings.Contains(g, "runJob") {
+				return false
+			}
+			continue
+		}
+		if strings.Contains(g, "runJob") {
+			for _, st := range []string{"[sync.", "[semacquire", "[chan ", "[select", "[sync.Cond"} {
+				if strings.Contains(head, st) {
+					blocked = true
+				}
+			}
+		}
+	}
+	return blocked
 }
 
 func tailStr(s string, n int) string {
@@ -267,6 +325,11 @@ var probes = []string{
 	fileProg("导入“工具”\n导入“库-甲”\n输出【（加一：1），（甲法）】", "工具", "如何加一？\n    输入数\n    输出数 + 1", "库-甲", "导入“库-乙”\n如何甲法？\n    输出（乙法） + 1", "库-乙", "如何乙法？\n    输出10"),
 	fileProg("导入“工具”之加一\n输出（加一：1）", "工具", "令内部 = 【1，2】\n如何加一？\n    输入数\n    以内部（后增：数）\n    输出内部"),
 	fileProg("导入“无此模块”\n输出1"),
+	// the file library (paths relative to the worker's own scratch directory)
+	"导入《@文件》\n（写入文件：“探针.txt”、“内容”）\n输出（读取文件：“探针.txt”）",
+	"导入《@文件》\n输出（读取文件：“无此文件.txt”）\n拦截异常：\n    输出“读不到”",
+	"导入《@文件》\n（写入文件：“无此目录/深/探针.txt”、“x”）\n输出“写成了”\n拦截异常：\n    输出“写不了”",
+	"导入《@文件》\n输出（读取目录：“无此目录”）\n拦截异常：\n    输出“列不了”",
 	fileProg("导入“坏”\n输出1", "坏", "输出1 / 0"),
 }
 
@@ -450,6 +513,9 @@ func checkSequence(c seqCase) (fails []h.Failure, succeeded int) {
 	}
 	jobs = append(jobs, job{Src: c.Probe, Shared: c.Shared})
 	rs, err := runInFreshWorker(jobs)
+	if eb, ok := err.(*errBlocked); ok {
+		return []h.Failure{{Sig: "sequence/execution-blocked-for-ever@" + firstLine(c.Probe), Msg: fmt.Sprintf("in one process, after the programs %q the probe\n%s\nnever ends (alone in a fresh process: %s)\n%v", c.Polluters, c.Probe, normalise(base), eb)}}, 0
+	}
 	if err != nil {
 		return []h.Failure{{Sig: "sequence/worker-died", Msg: fmt.Sprintf("polluters %q probe %q: %v", c.Polluters, c.Probe, err)}}, 0
 	}
@@ -520,6 +586,13 @@ func TestKnownPolluters(t *testing.T) {
 		"如何步？\n    输入计\n    以计（自增：1）\n    输出计\n输出（步：7300）",
 		"导入《@JSON》\n（解析JSON：“null”），得到结果\n以结果（写入：“k”、1）\n输出结果",
 		"导入《@JSON》\n（解析JSON：“{}”），得到结果\n以结果（写入：“k”、1）\n输出结果",
+		// file operations that fail (handled or not) or succeed
+		"导入《@文件》\n（写入文件：“无此目录/a.txt”、“x”）\n输出1",
+		"导入《@文件》\n（写入文件：“无此目录/a.txt”、“x”）\n输出1\n拦截异常：\n    输出2",
+		"导入《@文件》\n输出（读取文件：“无此文件.txt”）",
+		"导入《@文件》\n输出（读取目录：“无此目录”）",
+		"导入《@文件》\n（写入文件：“探针.txt”、“别的内容”）\n输出（读取文件：“探针.txt”）",
+		"导入《@文件》\n（写入文件：1、2）\n输出1",
 		// declarations of every name a probe uses
 		"令甲 = 5\n输出甲", "如何甲？\n    输出1\n输出（甲）", "如何解析JSON？\n    输出1\n输出（解析JSON）", "如何双？\n    输出0\n输出（双）",
 		"定义盒：\n    其量 = 【9】\n输出（新建盒）之量", "导入《@JSON》\n输出1", "导入《@测试库》\n输出1",
